@@ -53,6 +53,8 @@ def _match_val(m, s):
 
 
 def sig_matches(match, sig):
+    if isinstance(match, list):  # alternatives
+        return any(sig_matches(m, sig) for m in match)
     return all(_match_val(mv, sig.get(mk)) for mk, mv in match.items())
 
 
